@@ -155,6 +155,12 @@ func PredictResponse(handler string, script []string, id int, isHTTP bool, rname
 				// second reply panics; the first response stands
 				return ex
 			}
+			if arg == "panicmarshal" {
+				// the value panics while it is encoded: a handler panic
+				// before any response
+				panicked("str", "marshal panic "+sid)
+				return ex
+			}
 			replied = true
 			m := meta()
 			switch arg {
